@@ -68,6 +68,8 @@ def build_jobs(ctx, sc, exe, thorough, want_class=("ws",)):
     iarf = optreg.names("iarf")
     sp = [n for n in iarf if n.startswith("sp_") and not n.startswith("sp_cmt_cpp")]
     nlo = [n for n in iarf if n.startswith("nl_")]
+    ws_bools = [n for n in optreg.names("bool") if lexcheck.is_ws_option(n) and not n.startswith(("use_", "donot_"))]
+    tpos = optreg.names("tokenpos")
     nprog = 400 if thorough else 70
     for i in range(nprog):
         lang = rng.choice(["C", "C", "CPP", "CPP", "JAVA"])
@@ -83,6 +85,10 @@ def build_jobs(ctx, sc, exe, thorough, want_class=("ws",)):
                            "few": rng.choice(["remove", "force"])}[mode]
             for n in rng.sample(nlo, rng.choice([0, 5, 40])):
                 opts[n] = rng.choice(["ignore", "add", "remove", "force"])
+            for n in rng.sample(ws_bools, rng.choice([0, 3, 12, 40])):
+                opts[n] = rng.choice(["true", "false"])
+            for n in rng.sample(tpos, rng.choice([0, 0, 1, 3])):
+                opts[n] = rng.choice(["lead", "lead_break", "lead_force", "trail", "trail_break", "trail_force", "join", "break", "force"])
             opts.update({"indent_columns": rng.choice([2, 4, 8]), "indent_with_tabs": rng.choice([0, 1, 2]),
                          "code_width": rng.choice([0, 0, 40, 80]), "align_assign_span": rng.choice([0, 2]),
                          "align_var_def_span": rng.choice([0, 2]), "align_nl_cont": rng.choice(["false", "true"]) if False else rng.choice([0, 1]),
